@@ -32,6 +32,8 @@ pub enum Insertion {
     Elem { at: u16, local: String, ty: Option<String>, text: String, child: Option<String>, attrs: Vec<(String, String)> },
     /// foreign attribute added to the start tag number `at` (mod count)
     Attr { at: u16, local: String, value: String },
+    /// foreign element nested inside leaf element number `at`, after its character data
+    InLeaf { at: u16, local: String, text: String },
 }
 
 #[derive(Clone, Serialize, Deserialize)]
@@ -45,6 +47,8 @@ pub enum Case {
 struct Scan {
     /// byte offsets where a foreign element may be inserted
     points: Vec<usize>,
+    /// byte offsets just before the end tag of leaf elements (after their character data)
+    leaf_ends: Vec<usize>,
     /// byte offsets just before the '>' or '/>' of start tags outside prototypes
     tags: Vec<usize>,
 }
@@ -57,6 +61,7 @@ fn scan(xml: &str) -> Scan {
     let mut i = 0;
     let mut stack: Vec<(String, String)> = Vec::new();
     let mut points = Vec::new();
+    let mut leaf_ends = Vec::new();
     let mut tags = Vec::new();
     let container = |t: &str| matches!(t, "Structure" | "Vector" | "CompressedVector");
     while i < b.len() {
@@ -94,6 +99,11 @@ fn scan(xml: &str) -> Scan {
         let tag = &xml[i..=j.min(b.len() - 1)];
         let in_proto = stack.iter().any(|(n, _)| n == "prototype");
         if tag.starts_with("</") {
+            if let Some((_, ty)) = stack.last() {
+                if !container(ty) && !in_proto {
+                    leaf_ends.push(i);
+                }
+            }
             stack.pop();
         } else {
             let name: String = tag[1..].chars().take_while(|c| !c.is_whitespace() && *c != '>' && *c != '/').collect();
@@ -114,7 +124,7 @@ fn scan(xml: &str) -> Scan {
         }
         i = j + 1;
     }
-    Scan { points, tags }
+    Scan { points, leaf_ends, tags }
 }
 
 fn esc(t: &str) -> String {
@@ -146,6 +156,13 @@ fn apply(xml: &str, ins: &[Insertion]) -> String {
                 }
                 e.push_str(&format!("</{PREFIX}:{local}>\n"));
                 edits.push((pos, e));
+            }
+            Insertion::InLeaf { at, local, text } => {
+                if sc.leaf_ends.is_empty() {
+                    continue;
+                }
+                let pos = sc.leaf_ends[*at as usize % sc.leaf_ends.len()];
+                edits.push((pos, format!("<{PREFIX}:{local}>{}</{PREFIX}:{local}>", esc(text))));
             }
             Insertion::Attr { at, local, value } => {
                 if sc.tags.is_empty() {
@@ -214,6 +231,9 @@ fn local_name(s: &mut Src) -> String {
 }
 
 fn insertion(s: &mut Src) -> Insertion {
+    if s.chance(1, 6) {
+        return Insertion::InLeaf { at: s.u16(), local: local_name(s), text: s.pick(&["en", "7", "", "x y"]).to_string() };
+    }
     if s.chance(3, 4) {
         let ty = match s.weighted(&[3, 2, 2, 2, 1, 1, 1, 1]) {
             0 => Some("String"),
@@ -263,7 +283,7 @@ impl Check for C18 {
         "Metamorphic: small writer programs are finalized twice, once unchanged and once with an XML transformer that inserts well-formed elements \
          and attributes of a registered foreign namespace: local names drawn 4 in 5 from the standard E57 vocabulary (guid, name, points, data3D, \
          vectorChild, pose, colorLimits, ...), arbitrary type attributes (incl. Blob / CompressedVector / Structure with nested children), at any \
-         sibling position inside any Structure / Vector outside a prototype, plus foreign attributes (vfx:type, vfx:fileOffset, ...) on standard \
+         sibling position inside any Structure / Vector outside a prototype, nested inside leaf elements after their character data, plus foreign attributes (vfx:type, vfx:fileOffset, ...) on standard \
          start tags. Oracle: everything the reader reports about standard content (root fields, every descriptor, raw points, blobs, simple points) \
          is equal with and without the insertions. Second part: prototypes with extension records whose names may equal standard names must be \
          reported as Unknown{prefix,name} with round-tripping values, standard attributes unaffected. Non-trivial: an inserted element whose local \
@@ -289,12 +309,14 @@ impl Check for C18 {
         match case {
             Case::Insert { program, insertions } => {
                 for i in insertions {
-                    if let Insertion::Elem { local, .. } = i {
-                        if VOCAB.contains(&local.as_str()) {
-                            v.nt("foreign_element_with_standard_local_name");
+                    match i {
+                        Insertion::Elem { local, .. } => {
+                            if VOCAB.contains(&local.as_str()) {
+                                v.nt("foreign_element_with_standard_local_name");
+                            }
                         }
-                    } else {
-                        v.label("foreign_attribute");
+                        Insertion::InLeaf { .. } => v.nt("foreign_element_nested_in_a_leaf"),
+                        Insertion::Attr { .. } => v.label("foreign_attribute"),
                     }
                 }
                 let plain = match guard(|| write_with(program, &[])) {
@@ -357,10 +379,15 @@ impl Check for C18 {
                                 child: child.as_ref().map(|c| format!("q_{c}")),
                                 attrs: attrs.clone(),
                             },
+                            Insertion::InLeaf { at, local, text } => Insertion::InLeaf { at: *at, local: format!("q_{local}"), text: text.clone() },
                             a => a.clone(),
                         })
                         .collect();
-                    let caused_by_local_names = insertions.iter().any(|i| matches!(i, Insertion::Elem { local, child, .. } if VOCAB.contains(&local.as_str()) || child.as_ref().map(|c| VOCAB.contains(&c.as_str())).unwrap_or(false)))
+                    let caused_by_local_names = insertions.iter().any(|i| match i {
+                        Insertion::Elem { local, child, .. } => VOCAB.contains(&local.as_str()) || child.as_ref().map(|c| VOCAB.contains(&c.as_str())).unwrap_or(false),
+                        Insertion::InLeaf { local, .. } => VOCAB.contains(&local.as_str()),
+                        _ => false,
+                    })
                         && matches!(guard(|| write_with(program, &neutral)), Ok(Ok(ref b)) if verdict(b).is_ok());
                     if caused_by_local_names {
                         v.known("foreign-element-local-name-lookup", m);
